@@ -22,6 +22,8 @@ def dispatch (line : String) : String :=
   | "C11u" :: args => VtModel.Mvt.handleUpdate args
   | "C10m" :: args => VtModel.Mvt.handleMerge args
   | "C02" :: args => VtModel.PipeProto.handle args
+  | "C02v" :: args => VtModel.ReaderProto.handleV args
+  | "C02m" :: args => VtModel.ReaderProto.handleM args
   | "C08" :: args => VtModel.PipeProto.handle args
   | "C09" :: args => VtModel.PipeProto.handle args
   | "C05" :: args => VtModel.Http.handle args
